@@ -2,13 +2,17 @@
 # seed_matrix.sh [tier]: run each seeded change against the check of its property (and extra checks listed in
 # seeded/<id>/also.txt) in a scratch worktree of /repo; writes seeded/MATRIX.tsv
 tier=${1:-quick}
+pat=${2:-C*-*}   # optional: only the seeded changes matching this glob are (re-)run, other rows are kept
 wt=/tmp/mut/matrix-wt
 git -C /repo worktree remove --force $wt 2>/dev/null
 git -C /repo worktree add --detach $wt HEAD >/dev/null 2>&1 || exit 1
 out=/verif/seeded/MATRIX.tsv
-echo -e "seeded\tcheck\ttier\texit\tfirst_violation" > $out
-for d in /verif/seeded/C*-*/; do
+if [ "$pat" = "C*-*" ] || [ ! -f $out ]; then
+  echo -e "seeded\tcheck\ttier\texit\tfirst_violation" > $out
+fi
+for d in /verif/seeded/$pat/; do
   name=$(basename $d); prop=${name%-*}
+  grep -v "^$name	" $out > $out.tmp; mv $out.tmp $out
   checks="$prop"; [ -f $d/also.txt ] && checks="$checks $(cat $d/also.txt)"
   ( cd $wt && git checkout -q -- . && git apply $d/patch.diff ) || { echo -e "$name\t-\t$tier\tPATCH-FAILS\t" >> $out; continue; }
   for c in $checks; do
